@@ -169,10 +169,14 @@ impl DOP853 {
         }
         
         // Maximum step size
-        let h_max = match self.max_step {
+        let mut h_max = match self.max_step {
             Some(h) => h.abs(),
             None => (xend - x).abs(),
         };
+        // Never larger than the interval: keeps the initial-step probe inside [x0, xend]
+        if h_max > (xend - x).abs() {
+            h_max = (xend - x).abs();
+        }
 
         // Maximum Number of Steps
         let nmax = self.max_steps;
